@@ -14,7 +14,7 @@ GENERIC = (
 
 HYGIENE = [hygiene.r_falsy, hygiene.r_enum, hygiene.r_cache,
            hygiene.r_alias, hygiene.r_term, hygiene.r_lossy,
-           hygiene.r_shared, hygiene.r_loopflag]
+           hygiene.r_shared, hygiene.r_loopflag, misc.r_oneshot]
 HYGIENE_TEXT = (
     ' Repository conventions over every function reachable from the '
     'property\'s entry points: optional arguments, lookup results and '
@@ -23,7 +23,8 @@ HYGIENE_TEXT = (
     'returns a manager table or shares one between managers; terminal '
     'shortcuts keep the sign; no equality by hash, no flag tested by '
     'identity with True/False, no signed references filed under abs(); flags '
-    'that decide an early exit after a loop accumulate over it.')
+    'that decide an early exit after a loop accumulate over it; an '
+    'Iterable argument is traversed at most once on every path.')
 
 
 def prop(pid, rules, decides, not_decided, technique, cython=False):
@@ -94,7 +95,6 @@ prop('C03', [
     memo.r_memo,
     misc.r_args,
     reord.r_stale_levels,
-    misc.r_oneshot,
     role.r_quant_guard,
     misc.r_quant_vars,
 ],
@@ -272,7 +272,6 @@ prop('C13', [
     role.r_conn,
     memo.r_memo,
     misc.r_args,
-    misc.r_oneshot,
     role.r_quant_guard,
     domain.r_rebuild,
     role.r_spaces,
